@@ -176,6 +176,34 @@ Section LleProof.
     unfold mmul, mtrans. apply sumn_ext. intros; ring.
   Qed.
 
+  (* the alignment cost of one vector is a sum of squares plus shift |y|^2: over an ordered field
+     y^T M y >= shift y^T y, with equality for the constant vector (lle_const_vector): the constant
+     vector minimises the unconstrained Rayleigh quotient *)
+  Theorem lle_quadratic_form N k nbr (W : mat) shift (y : vec) :
+    dot N y (mv N (lle_M_spec N k nbr W shift) y) =
+    sumn N (fun i => mv N (IWm k nbr W) y i * mv N (IWm k nbr W) y i) + shift * dot N y y.
+  Proof.
+    unfold dot, mv, lle_M_spec. fold (IWm k nbr W).
+    rewrite (sumn_ext N _ (fun r =>
+       sumn N (fun i => (IWm k nbr W i r * y r) * sumn N (fun c => IWm k nbr W i c * y c))
+       + shift * (y r * y r))).
+    2:{ intros r Hr.
+        rewrite (sumn_ext N _ (fun c => mmul N (mtrans (IWm k nbr W)) (IWm k nbr W) r c * y c
+                                        + shift * (delta r c * y c))) by (intros; ring).
+        rewrite sumn_add, sumn_mul_l, sumn_delta_l by assumption.
+        replace (y r * (sumn N (fun c => mmul N (mtrans (IWm k nbr W)) (IWm k nbr W) r c * y c) + shift * y r))
+          with (y r * sumn N (fun c => mmul N (mtrans (IWm k nbr W)) (IWm k nbr W) r c * y c)
+                + shift * (y r * y r)) by ring.
+        f_equal. unfold mmul, mtrans.
+        rewrite (sumn_ext N _ (fun c => sumn N (fun i => IWm k nbr W i r * (IWm k nbr W i c * y c))))
+          by (intros c _; rewrite <- sumn_mul_r; apply sumn_ext; intros; ring).
+        rewrite sumn_swap, <- sumn_mul_l. apply sumn_ext. intros i _.
+        rewrite sumn_mul_l. ring. }
+    rewrite sumn_add, sumn_mul_l. f_equal.
+    rewrite sumn_swap. apply sumn_ext. intros i _.
+    rewrite sumn_mul_r. reflexivity.
+  Qed.
+
   (* ---------------- the routine as a whole ---------------- *)
   Section WithSolver.
     Variable solve : nat -> mat -> vec -> option (list F).
